@@ -280,8 +280,9 @@ def generate(rng, tier, profile='default'):
                 else rng.randrange(len(series)))
         ops.append({'op': 'set_x', 'o': o, 's': pick,
                     'as': rng.choice(('list', 'array', 'array', 'tuple',
-                                      'pyarray', 'series', 'lazy'))})
-        if ops[-1]['as'] == 'lazy':
+                                      'pyarray', 'series', 'lazy',
+                                      'probe_elems'))})
+        if ops[-1]['as'] in ('lazy', 'probe_elems'):
           ops[-1]['lazy_q'] = rng.choice(('tests_ok', 'corr', 'required_impact',
                                           'bbtest', 'aatest', 'dwtest'))
       elif r2 < 0.33:
@@ -368,6 +369,33 @@ class LazySeries:
     return np.array(self._vals, dtype=dtype)
 
 
+import fractions  # pylint: disable=g-import-not-at-top,wrong-import-position
+
+
+class ProbeFraction(fractions.Fraction):
+  """An exact number whose arithmetic looks at a diagnostics object once: an
+  element of an object-dtype series, so that caller code runs INSIDE numpy
+  reductions such as mean() while a setter is half-way through."""
+  hook = None        # (target, quantity) while armed
+
+  def _peek(self):
+    if ProbeFraction.hook is not None:
+      target, quantity = ProbeFraction.hook
+      ProbeFraction.hook = None
+      try:
+        getattr(target, quantity)
+      except Exception:  # pylint: disable=broad-except
+        pass
+
+  def __add__(self, other):
+    self._peek()
+    return fractions.Fraction(self) + other
+
+  def __radd__(self, other):
+    self._peek()
+    return other + fractions.Fraction(self)
+
+
 def _scribble(container, pos, value):
   """The caller writes into its own container; False if it cannot."""
   try:
@@ -429,6 +457,7 @@ class _Tracked:
 
 def execute(desc):
   import numpy as np  # pylint: disable=g-import-not-at-top
+  ProbeFraction.hook = None      # nothing armed by an earlier run survives
   tbrmmdesignparameters, tbrmmdiagnostics = core.fresh_modules(
       'tbrmmdesignparameters', 'tbrmmdiagnostics')
   np.seterr(all='ignore')
@@ -552,9 +581,18 @@ def execute(desc):
     ev = None
     if kind in ('set_x', 'set_y'):
       vals = series[op['s']]
+      exact = None
       if op.get('as') == 'lazy':
         value = LazySeries(vals, obj, op.get('lazy_q', 'tests_ok'))
         fault('read_nested_in_assignment')
+      elif op.get('as') == 'probe_elems' and kind == 'set_x' and all(
+          isinstance(v, float) and v == v and abs(v) < 1e300 for v in vals):
+        # an object-dtype series of exact numbers; their arithmetic reads the
+        # object once (inside whatever reduction the setter performs)
+        value = [ProbeFraction(v) for v in vals]
+        exact = [fractions.Fraction(v) for v in vals]
+        ProbeFraction.hook = (obj, op.get('lazy_q', 'tests_ok'))
+        fault('read_nested_in_element_arithmetic')
       else:
         value = _container(np, vals, op.get('as', 'list'))
       which = kind[-1]
@@ -566,10 +604,13 @@ def execute(desc):
         raised = None
       except Exception as e:  # pylint: disable=broad-except
         raised = e
+      ProbeFraction.hook = None
       # the model: what a fresh object with the same prior series does
       f = fresh(t.y, t.x, t.pk)
       try:
-        if which == 'x':
+        if which == 'x' and exact is not None:
+          f.x = list(exact)
+        elif which == 'x':
           f.x = _container(np, vals, op.get('as', 'list'))
         else:
           f.y = _container(np, vals, op.get('as', 'list'))
@@ -594,7 +635,8 @@ def execute(desc):
                 'none' if verdict is None else bool(verdict)))
         n_assign += 1
         if which == 'x':
-          t.x = np.array(vals)
+          t.x = np.array(vals) if exact is None else np.array(exact,
+                                                              dtype=object)
           t.caller_x = value if not isinstance(
               value, (list, tuple, LazySeries)) else None
           t.alias_x = False
